@@ -22,6 +22,7 @@ RULE = (
     '3-axis step histories for T<=3, N in {1,2,3} atoms on different (derived) tracks, x LATTICES x dimensions '
     '{1,2,3} asked of ONE metrics object in turn; query-then-extend history; length sweep T=2..48 over 20 fixed tracks; one trajectory of 3 x 30000 frames (> 2^18 coordinates); input coordinates are wrapped into [0,1); distinct = '
     'distinct MSD arrays (rounded to 1e-9)'
+    '; driven ions: 3 atoms x 1500 frames with 150 cells of net travel (MSD at lags 0,1,2,17,..., distance from the start in every frame)'
 )
 LEVEL_TEXT = (
     'Bounded-exhaustive over all step histories of the alphabet up to 6 (quick) / 8 (thorough) frames, '
